@@ -383,7 +383,10 @@ func Run(r *core.Run) {
 				for _, de := range []bool{false, true} {
 					// (created, updated, has version): never updated; updated later; updated at the very anchoring time of the creation
 					// (two transactions of one block) and, as data, before it
-					for _, times := range [][3]uint64{{0, 0, 0}, {1600000000, 0, 1}, {1600000000, 1600000100, 1}, {1600000000, 1600000000, 1}, {1600000000, 1599999999, 1}, {1, 1, 1}} {
+					for _, times := range [][3]uint64{{0, 0, 0}, {1600000000, 0, 1}, {1600000000, 1600000100, 1}, {1600000000, 1600000000, 1}, {1600000000, 1599999999, 1}, {1, 1, 1},
+						// width boundaries of the seconds count: 2^31, 2^32, and the last second / first second whose nanosecond count fits / no longer fits int64
+						// (a formatter that goes through time.Duration wraps there), up to the last second of year 9999
+						{2147483647, 2147483648, 1}, {4294967295, 4294967296, 1}, {9223372036, 9223372037, 1}, {9223372037, 253402300799, 1}, {253402300799, 9223372036, 1}} {
 						for _, pub := range []bool{true, false} {
 							for _, ids := range [][2]any{{nil, nil}, {"did:x:c", []any{"did:x:c", "did:x:e"}}} {
 								s := resolution.State{UpdateCommitment: uc, RecoveryCommitment: rc, AnchorOrigin: ao, Deactivated: de, CreatedTime: times[0], UpdatedTime: times[1]}
